@@ -306,6 +306,21 @@ def word_values(case, word_keys):
     return [back[k] for k in word_keys]
 
 
+def mix_states(case):
+    """rename the states of a generated case to the MIXED_STATES pool (ints and strings in one automaton, some of them
+    printing alike); no-op when there are more states than names"""
+    if len(case["states"]) > len(MIXED_STATES):
+        return case
+    ren = dict(zip(case["states"], MIXED_STATES))
+    r = lambda x: ren.get(x, x)
+    case.update(states=[r(x) for x in case["states"]], trans=[[r(p), a, r(q)] for p, a, q in case["trans"]],
+                starts=[r(x) for x in case["starts"]], finals=[r(x) for x in case["finals"]], valmode="mixed",
+                ghost_trans=None, ghost_final=None, ghost_start=None, eps_string_edge=None, extra_states=[])
+    if case.get("hash"):
+        case["hash"] = {k: v for k, v in case["hash"].items() if not k.startswith("S:")} or None
+    return case
+
+
 def word_arg(case, word_keys):
     """the word as handed to accepts(): a list, a tuple or a one-shot iterator (`word: iterable of symbols`)"""
     w = word_values(case, word_keys)
